@@ -52,7 +52,7 @@ class HandleSimple(Contract):
     def setup(self, cx, I, ov):
         st, self_ref = listener_self(cx)
         obj, old, new = z3.Consts("object old new", Val)
-        return st, [self_ref, VElem(obj), VStr(z3.String("name")), VElem(old), VElem(new)], {}, dict(old=old, new=new, witness={})
+        return st, [self_ref, VElem(obj), VStr(z3.String("name")), VElem(old), VElem(new)], {}, dict(old=old, new=new, witness={}, concretise=lambda m: dict(harness="observe", family="legacy", trials=80))
 
     def post(self, cx, I, ov, info, kind, payload, st):
         if kind == "raise":
@@ -103,7 +103,7 @@ class HandleList(Contract):
         oref, nref = VRef(cx.new_oid()), VRef(cx.new_oid())
         st = st.put(oref.oid, HObj("list", self.old)).put(nref.oid, HObj("list", self.new))
         oldv = oref if ov == "old-list" else NONE
-        return st, [self_ref, VElem(z3.Const("object", Val)), VStr(z3.String("name")), oldv, nref], {}, dict(witness=dict(old=self.old, new=self.new))
+        return st, [self_ref, VElem(z3.Const("object", Val)), VStr(z3.String("name")), oldv, nref], {}, dict(witness=dict(old=self.old, new=self.new), concretise=lambda m: dict(harness="observe", family="legacy", trials=80))
 
     def post(self, cx, I, ov, info, kind, payload, st):
         if kind == "raise":
@@ -141,7 +141,7 @@ class HandleListItems(Contract):
 
     def setup(self, cx, I, ov):
         st, self_ref = listener_self(cx)
-        return st, [self_ref, VElem(z3.Const("object", Val)), VStr(z3.String("name")), VElem(z3.Const("old", Val)), VElem(z3.Const("event", Val))], {}, dict(witness={})
+        return st, [self_ref, VElem(z3.Const("object", Val)), VStr(z3.String("name")), VElem(z3.Const("old", Val)), VElem(z3.Const("event", Val))], {}, dict(witness={}, concretise=lambda m: dict(harness="observe", family="legacy", trials=80))
 
     def post(self, cx, I, ov, info, kind, payload, st):
         d = st.ghost.get("delegated", ())
@@ -150,3 +150,177 @@ class HandleListItems(Contract):
         a = d[0]
         rem, add = z3.Consts("event_removed event_added", Val)
         return [("post:removed-items-leave-added-items-arrive", z3.And(as_val(cx, a[2], st) == rem, as_val(cx, a[3], st) == add))]
+
+
+# ------------------------------------------------------------------------------------------------------------------
+# dictionary links
+# ------------------------------------------------------------------------------------------------------------------
+def seq_prefix_inv(cx, seq, key):
+    def inv(i, view, st):
+        pre, nxt = z3.Extract(seq, 0, i), z3.Extract(seq, 0, i + 1)
+        bag_axioms(cx, pre)
+        bag_axioms(cx, nxt)
+        cx.axioms.append(z3.Implies(z3.And(0 <= i, i < z3.Length(seq)), z3.And(z3.Extract(nxt, 0, i) == pre, nxt[i] == seq[i], z3.Length(nxt) == i + 1)))
+        cx.axioms.append(z3.Extract(seq, 0, z3.Length(seq)) == seq)
+        return [("%s-is-the-prefix-processed" % key, st.ghost[key] == bag(pre)), ("order", st.ghost["order_ok"])]
+    return inv
+
+
+@register
+class HandleDict(Contract):
+    """handle_dict(object, name, old, new): every value of the mapping that left is unregistered once, every value of the
+    mapping that arrived registered once (values repeated under several keys counted), everything that left first."""
+    path = PATH
+    qualname = "ListenerItem.handle_dict"
+    properties = ("C16",)
+    class_paths = (PATH,)
+    overloads = ("old-dict", "old-uninitialized")
+    assumptions = ("A-PY", "old / new are finite mappings; .values() lists their values")
+
+    def configure(self, cx, I, ov):
+        next_link(cx)
+        self.UNINIT = cx.const("Uninitialized")
+        self.oldm, self.newm = z3.Consts("old_mapping new_mapping", Val)
+        self.oldv, self.newv = z3.Const("old_values", SeqV), z3.Const("new_values", SeqV)
+
+        def values_attr(I2, o, st, k):
+            seq = self.oldv if o.t.eq(self.oldm) else self.newv if o.t.eq(self.newm) else None
+            if seq is None:
+                raise Unsupported(".values() of %r" % (o,))
+
+            def apply(I3, a, kw, s, kk):
+                ref = VRef(I3.cx.new_oid())
+                return kk(ref, s.put(ref.oid, HObj("list", seq)))
+            return k(VFunc("opaque", name="values", apply=apply), st)
+        cx.elem_attrs["values"] = values_attr
+        cx.on_loop = loops.make_hook({
+            0: loops.LoopSpec("for obj in old.values()", [], seq_prefix_inv(cx, self.oldv, "unregistered"), ghost=["unregistered", "order_ok"]),
+            1: loops.LoopSpec("for obj in new.values()", [], seq_prefix_inv(cx, self.newv, "registered"), ghost=["registered", "order_ok"])})
+
+    def setup(self, cx, I, ov):
+        st, self_ref = listener_self(cx)
+        bag_axioms(cx, self.oldv)
+        bag_axioms(cx, self.newv)
+        oldarg = VElem(self.oldm) if ov == "old-dict" else self.UNINIT
+        if ov == "old-dict":
+            st = st.assume(self.oldm != self.UNINIT.t)
+        return st, [self_ref, VElem(z3.Const("object", Val)), VStr(z3.String("name")), oldarg, VElem(self.newm)], {}, dict(
+            witness=dict(old=self.oldv, new=self.newv), concretise=lambda m: dict(harness="observe", family="legacy", trials=80))
+
+    def post(self, cx, I, ov, info, kind, payload, st):
+        if kind == "raise":
+            return [("exc-free", z3.BoolVal(False))]
+        exp_old = bag(self.oldv) if ov == "old-dict" else ZERO
+        return [("post:every-value-that-left-unregistered-once", st.ghost["unregistered"] == exp_old),
+                ("post:every-value-that-arrived-registered-once", st.ghost["registered"] == bag(self.newv)),
+                ("post:unregister-before-register", st.ghost["order_ok"])]
+
+    def covers(self, cx, ov, info):
+        return [("handles", lambda k, p, s: k == "return")]
+
+
+@register
+class HandleDictItems(Contract):
+    """handle_dict_items(object, name, old, event): the values under removed keys leave and those under added keys arrive
+    (one delegation to handle_dict), AND for every changed key the previous value leaves and the value now stored under
+    that key arrives -- whatever else the same event carries (a single update() both adds and replaces)."""
+    path = PATH
+    qualname = "ListenerItem.handle_dict_items"
+    properties = ("C16",)
+    class_paths = (PATH,)
+    assumptions = ("A-PY", "handle_dict through its contract", "event.changed is a finite mapping key -> previous value; "
+                   "getattr(object, <dict trait name>)[key] is the value now stored under key")
+
+    def configure(self, cx, I, ov):
+        next_link(cx)
+        self.rem, self.add, self.chg = z3.Consts("event_removed event_added event_changed", Val)
+        self.ck, self.cv = z3.Const("changed_keys", SeqV), z3.Const("changed_old_values", SeqV)
+        self.now = z3.Function("value_now_under", Val, Val)
+        self.cur = z3.Const("dict_now", Val)
+        cx.elem_attrs["removed"] = lambda I2, o, st, k: k(VElem(self.rem), st)
+        cx.elem_attrs["added"] = lambda I2, o, st, k: k(VElem(self.add), st)
+        cx.elem_attrs["changed"] = lambda I2, o, st, k: k(VElem(self.chg), st)
+
+        def len_hook(I2, x, st, k):
+            if isinstance(x, VElem) and x.t.eq(self.chg):
+                return k(VInt(z3.Length(self.ck)), st)
+            if isinstance(x, VElem) and (x.t.eq(self.rem) or x.t.eq(self.add)):
+                n = z3.Function("mapping_len", Val, z3.IntSort())(x.t)       # any size, independent of the changed part
+                return k(VInt(n), st.assume(n >= 0))
+            return None
+        cx.len_hook = len_hook
+
+        def items_attr(I2, o, st, k):
+            if not o.t.eq(self.chg):
+                raise Unsupported(".items() of %r" % (o,))
+            return k(VFunc("opaque", name="items", apply=lambda I3, a, kw, s, kk: kk(VFunc("pairs", ks=self.ck, vs=self.cv), s)), st)
+        cx.elem_attrs["items"] = items_attr
+
+        def dyn_getattr(I2, args, st, k):
+            # getattr(object, name): the dict trait's current value (name with a trailing '_items' removed)
+            nm = args[1]
+            st2 = st.gset("dict_read_as", st.ghost.get("dict_read_as", ()) + (nm.t,))
+            return k(VElem(self.cur), st2)
+        cx.dyn_getattr_hook = dyn_getattr
+
+        def getitem_hook(I2, obj, key, st, k):
+            if isinstance(obj, VElem) and obj.t.eq(self.cur):
+                return k(VElem(self.now(as_val(I2.cx, key, st))), st)
+            return None
+        cx.getitem_hook = getitem_hook
+
+        class HD(Contract):
+            path = PATH
+            qualname = "ListenerItem.handle_dict"
+
+            def summary(self, I2, self_ref, args, kwargs, st, k):
+                return k(NONE, st.gset("delegated", st.ghost.get("delegated", ()) + (tuple(args),)))
+        cx.contracts = dict(cx.contracts)
+        cx.contracts[("ListenerItem", "handle_dict")] = HD()
+        j = z3.Int("j!chg")
+        nowseq = z3.Const("changed_new_values", SeqV)
+        self.nowseq = nowseq
+        cx.axioms.append(z3.Length(nowseq) == z3.Length(self.ck))
+        cx.axioms.append(z3.ForAll([j], z3.Implies(z3.And(0 <= j, j < z3.Length(self.ck)), nowseq[j] == self.now(self.ck[j]))))
+        cx.axioms.append(z3.Length(self.cv) == z3.Length(self.ck))
+
+        def inv(i, view, st):
+            out = []
+            for seq, key in ((self.cv, "unregistered"), (nowseq, "registered")):
+                pre, nxt = z3.Extract(seq, 0, i), z3.Extract(seq, 0, i + 1)
+                bag_axioms(cx, pre)
+                bag_axioms(cx, nxt)
+                cx.axioms.append(z3.Implies(z3.And(0 <= i, i < z3.Length(seq)), z3.And(z3.Extract(nxt, 0, i) == pre, nxt[i] == seq[i], z3.Length(nxt) == i + 1)))
+                cx.axioms.append(z3.Extract(seq, 0, z3.Length(seq)) == seq)
+                out.append(("%s-is-the-prefix-processed" % key, st.ghost[key] == bag(pre)))
+            return out
+        cx.on_loop = loops.make_hook({0: loops.LoopSpec("for (key, obj) in new.changed.items()", [], inv, ghost=["unregistered", "registered", "order_ok"])})
+
+    def setup(self, cx, I, ov):
+        st, self_ref = listener_self(cx)
+        bag_axioms(cx, self.cv)
+        bag_axioms(cx, self.nowseq)
+        self.base = z3.String("dict_trait_name")
+        name = z3.Concat(self.base, z3.StringVal("_items"))
+        return st, [self_ref, VElem(z3.Const("object", Val)), VStr(name), VElem(z3.Const("old", Val)), VElem(z3.Const("event", Val))], {}, dict(
+            witness=dict(changed_keys=self.ck, changed_old=self.cv), concretise=lambda m: dict(harness="observe", family="legacy", trials=80))
+
+    def post(self, cx, I, ov, info, kind, payload, st):
+        d = st.ghost.get("delegated", ())
+        if kind == "raise":
+            return [("exc-free", z3.BoolVal(False))]
+        mlen = z3.Function("mapping_len", Val, z3.IntSort())
+        out = [("post:removed-and-added-values-handled-by-one-delegation-to-handle_dict",
+                z3.BoolVal(len(d) == 1) if len(d) != 0 else z3.And(mlen(self.rem) == 0, mlen(self.add) == 0))]
+        if len(d) == 1:
+            a = d[0]
+            out.append(("post:values-under-removed-keys-leave-those-under-added-keys-arrive", z3.And(as_val(cx, a[2], st) == self.rem, as_val(cx, a[3], st) == self.add)))
+        out.append(("post:previous-value-of-every-changed-key-unregistered-once", st.ghost["unregistered"] == bag(self.cv)))
+        out.append(("post:current-value-of-every-changed-key-registered-once", st.ghost["registered"] == bag(self.nowseq)))
+        reads = st.ghost.get("dict_read_as", ())
+        out.append(("post:current-values-read-from-the-dict-trait-itself", z3.And(*[r == self.base for r in reads]) if reads else z3.BoolVal(True)))
+        return out
+
+    def covers(self, cx, ov, info):
+        return [("handles-changed-keys", lambda k, p, s: z3.And(z3.BoolVal(k == "return"), z3.Length(self.ck) > 0)),
+                ("no-changed-key", lambda k, p, s: z3.And(z3.BoolVal(k == "return"), z3.Length(self.ck) == 0))]
